@@ -74,6 +74,15 @@ def base(which="B1"):
             {"kind": "gate", "model": "BUF", "conns": [["I", "r"], ["O", "o2"]], "cname": "g1"},
         ]
         return {"name": "top6", "inputs": ["a[0]", "a[1]", "p"], "outputs": ["o1", "o2"], "items": items, "models": models[1:2]}
+    if which == "B7":  # .clock, a port listed as input and as output, instances without .cname
+        items = [
+            {"kind": "subckt", "model": "BUF", "conns": [["I", "a"], ["O", "n1"]]},
+            {"kind": "subckt", "model": "BUF", "conns": [["I", "n1"], ["O", "io"]], "attr": {"K": "v"}},
+            {"kind": "gate", "model": "BUF", "conns": [["I", "clk"], ["O", "q"]], "cname": "g"},
+            {"kind": "subckt", "model": "LUT2", "conns": [["I0", "io"], ["I1", "a"], ["O", "q2"]]},
+        ]
+        return {"name": "top7", "inputs": ["a", "clk", "io"], "outputs": ["q", "io", "q2"], "clock": ["clk"], "items": items,
+                "models": models[:2]}
     raise KeyError(which)
 
 
@@ -109,7 +118,7 @@ def worker(case):
         conn_early = any(ead["items"][i]["kind"] == "conn" and any(ead["items"][j]["kind"] != "conn" for j in order[pos + 1:])
                          for pos, i in enumerate(order))
         tag = "%s:models-%s%s%s" % (which, models, ":conn-before-use" if conn_early else "", ":reversed-formals" if rev else ":continued" if cont else "")
-        exp = ew.expected(ead, models)
+        exp = ew.expected(ead, models, list(order))
         try:
             n = parse_text(text)
         except Exception as ex:
@@ -117,6 +126,7 @@ def worker(case):
             return {"key": key, "nontrivial": True, "outcome": "raised", "problems": probs, "transitions": 1}
     got = ecanon.extract(n)
     if exp is not None:
+        exp = ecanon.match_nameless(exp, got)
         d = ecanon.diff(exp, got)
         if d:
             probs.append(("parsed-design-differs:%s:%s" % (d[0], tag), d[1][:400]))
@@ -146,7 +156,7 @@ engine_b.WORKERS[ID] = worker
 
 def cases(tier):
     out = []
-    for which in ("B1", "B2", "B3", "B4", "B5", "B6"):
+    for which in ("B1", "B2", "B3", "B4", "B5", "B6", "B7"):
         nitems = len(base(which)["items"])
         for order in itertools.permutations(range(nitems)):
             for models in ("after", "before", "none"):
